@@ -49,7 +49,9 @@ let decode (bytes : int array) : int list * int array =
   offs := n :: !offs;
   (List.rev !cps, Array.of_list (List.rev !offs))
 
+exception Timeout
 let run () =
+  Sys.set_signal Sys.sigalrm (Sys.Signal_handle (fun _ -> raise Timeout));
   let cases = ref 0 and runs = ref 0 and pviol = ref 0 and nontrivial = ref 0 and fuelout = ref 0 and rej = ref 0 in
   let id = ref "" and pat = ref "" and flags = ref "" and ngroups = ref 0 and unicode = ref false in
   let re : regex option ref = ref None in
@@ -71,7 +73,12 @@ let run () =
       (match !re with
        | None -> ()
        | Some r ->
-         let model = drv_es_first !unicode (List.map n_of_int cps) fuel r (nat_of_int !ngroups) (nat_of_int start_cp) in
+         (* per-evaluation time box: an evaluation that does not finish is inconclusive, never a verdict *)
+         let model = (try
+             ignore (Unix.alarm 2);
+             let m = drv_es_first !unicode (List.map n_of_int cps) fuel r (nat_of_int !ngroups) (nat_of_int start_cp) in
+             ignore (Unix.alarm 0); m
+           with Timeout -> (ignore (Unix.alarm 0); None)) in
          let show_caps l = String.concat "," (List.map (fun c -> match c with None -> "-" | Some (a, b) -> Printf.sprintf "%d-%d" a b) l) in
          let model_s = (match model with
            | None -> "FUEL"
